@@ -105,6 +105,15 @@ func (o *histogramOperator) Next(ctx context.Context) ([]model.StepVector, error
 	if err != nil {
 		return nil, err
 	}
+	if vectors == nil {
+		// The vector argument has ended, so has the result: signal that, not an
+		// empty batch, after evaluating the scalar argument to its end for errors.
+		o.scalarOp.GetPool().PutVectors(scalars)
+		if err := model.Drain(ctx, o.scalarOp, nil); err != nil {
+			return nil, err
+		}
+		return nil, nil
+	}
 
 	o.scalarPoints = o.scalarPoints[:0]
 	for _, scalar := range scalars {
